@@ -260,7 +260,7 @@ def run(ctx):
         for b in out['bad']:
             ctx.violation(name + ': ' + b, rec)
     # ---- generated stream
-    n = 200 if quick else 3000
+    n = 260 if quick else 4000
     jobs = []
     for i in range(n):
         jobs.append((gen_hostile_case(rng, docopts), rng.choice(['restore', 'rollback', 'bootstrap', None])))
@@ -291,5 +291,30 @@ def run(ctx):
                         R.coq_manifests(res) if p0[0] == 'ok' else '[]')
         cases.append((term, rec))
     ctx.log('hostile_ids: %d cases to Coq, %d chars' % (len(cases), sum(len(c[0]) for c in cases)))
-    for c in ctx.corr('hostile_ids', HEADER, 'check_hostile_full', 'case03', cases, shard_chars=50000):
-        ctx.violation('model and implementation disagree on desired files / roots / manifest entries, or the model\'s own C03 predicate fails', c, no_input=True)
+    failing = ctx.corr('hostile_ids', HEADER, 'check_hostile_full', 'case03', cases, shard_chars=50000)
+    # a disagreement is first turned into a concrete violation if possible: directed attack on the
+    # neighbourhood of the disagreeing case (every module id replaced by escaping names, every tree given
+    # an escaping file name), judged by the implementation-side oracle only
+    found = 0
+    for c in failing[:4]:
+        case = R.case_from_json(json.loads(json.dumps(c['case'])))
+        for i, m in enumerate(case['modules']):
+            for nm in ('../../esc', SB + '/canary/esc', '..\\..\\esc'):
+                variant = json.loads(json.dumps(R.case_json(case)))
+                variant = R.case_from_json(variant)
+                variant['modules'][i]['id'] = '%s:%s' % (m['type'], nm)
+                variant['modules'][i]['enabled'] = True
+                variant['profiles'][variant['profile']]['include_modules'] = [variant['modules'][i]['id']] if variant['profile'] in variant['profiles'] else []
+                out = run_case((variant, None))
+                ctx.count('attack', key=(c['index'], i, nm), tags=['attack'])
+                if out['bad']:
+                    found += 1
+                    ctx.violation(out['bad'][0], {'stream': 'hostile_ids', 'case': R.case_json(variant), 'extra': None, 'derived_from': c['index']})
+                    break
+            if found: break
+        if found: break
+    if not found:
+        for c in failing:
+            ctx.violation('model and implementation disagree on desired files / roots / manifest entries, or the model\'s own C03 predicate fails', c, no_input=True)
+    elif failing:
+        ctx.notes.append('%d model/implementation disagreements; a concrete failing input was found in their neighbourhood' % len(failing))
